@@ -194,4 +194,32 @@ theorem values_zip (l : List Int) (vs : List Val) (h : vs.length = l.length) : v
       simp only [values, List.zip_cons_cons, List.map_cons] at this ⊢
       rw [this]
 
+-- combine_first keeps the first time point when the new batch does not start earlier ----------
+theorem insertObs_head (t : Int) (v : Val) (r : Series) (o : Int × Val) (h : r.head? = some o) (hle : o.1 ≤ t) :
+    ∃ o', (insertObs t v r).head? = some o' ∧ o'.1 = o.1 := by
+  cases r with
+  | nil => simp at h
+  | cons p r =>
+    simp only [List.head?_cons, Option.some.injEq] at h
+    subst h
+    obtain ⟨t', v'⟩ := p
+    simp only [insertObs]
+    have h1 : ¬ t < t' := by simpa using hle
+    simp only [h1, ↓reduceIte]
+    split
+    · exact ⟨_, rfl, rfl⟩
+    · exact ⟨_, rfl, rfl⟩
+
+theorem combineFirst_head (new old : Series) (o : Int × Val) (h : old.head? = some o)
+    (hle : ∀ p ∈ new, o.1 ≤ p.1) : ∃ o', (combineFirst new old).head? = some o' ∧ o'.1 = o.1 := by
+  unfold combineFirst
+  induction new generalizing old o with
+  | nil => exact ⟨o, h, rfl⟩
+  | cons p new ih =>
+    simp only [List.foldl_cons]
+    obtain ⟨o1, ho1, hl1⟩ := insertObs_head p.1 p.2 old o h (hle p List.mem_cons_self)
+    obtain ⟨o2, ho2, hl2⟩ := ih (insertObs p.1 p.2 old) o1 ho1
+      (fun q hq => by rw [hl1]; exact hle q (List.mem_cons_of_mem _ hq))
+    exact ⟨o2, ho2, by rw [hl2, hl1]⟩
+
 end SkVerif.Lem.ST
